@@ -1075,6 +1075,10 @@ func (e *Env) trCall(x *ECall) (Term, Ty) {
 	case "isobj":
 		v, _ := arg(0)
 		return Term{"((_ is Obj) " + v.S + ")", SBool}, specBool
+	case "infield":
+		// infield(p): p points at a field of a whole heap object (not at, or into, a slice or array element)
+		v, _ := arg(0)
+		return Term{"(and ((_ is Fld) " + v.S + ") ((_ is Obj) (fbase " + v.S + ")))", SBool}, specBool
 	case "min":
 		a, ta := arg(0)
 		b, _ := arg(1)
